@@ -247,6 +247,7 @@ pub struct World {
     /// per-mille probability that a gate completes without parking
     pub p_immediate: Cell<u32>,
     pub p_hold: Cell<u32>,
+    pub p_hold_ctl: Cell<u32>,
     /// weights for outcome ok / neg / err at immediate completion
     pub w_outcome: Cell<[u32; 3]>,
     /// weights for payload mode eager / lazy / abandon
@@ -272,6 +273,7 @@ impl World {
             auto_open: Cell::new(false),
             p_immediate: Cell::new(0),
             p_hold: Cell::new(0),
+            p_hold_ctl: Cell::new(0),
             w_outcome: Cell::new([1, 0, 0]),
             w_payload: Cell::new([1, 0, 0]),
             conn_done: RefCell::new(Vec::new()),
@@ -367,7 +369,8 @@ impl World {
         let held = immediate.is_none()
             && matches!(kind, GateKind::Publish | GateKind::Proto)
             && self.p_hold.get() > 0
-            && self.ch.borrow_mut().chance(self.p_hold.get(), 1000);
+            && self.ch.borrow_mut().chance(self.p_hold.get(), 1000)
+            || immediate.is_none() && kind == GateKind::Control && self.p_hold_ctl.get() > 0 && self.ch.borrow_mut().chance(self.p_hold_ctl.get(), 1000);
         self.gates.borrow_mut().push(Gate {
             id,
             conn,
